@@ -47,8 +47,8 @@ PLANS = {
             "thorough": [("book", "reload", 6000, 120, ["--levels", "1,3,10,24"]), ("market", "reload", 2000, 120, ["--levels", "1,3,10"]), ("book", "mixed", 3000, 120, ["--levels", "1,3,10"])]},
     "C08": {"quick": [("env", "plain", 900, 8, ["--levels", "3"]), ("menv", "plain", 600, 8, ["--levels", "3"]),
                       ("env", "toggle", 300, 8, []), ("menv", "toggle", 300, 8, []), ("env", "overfull", 300, 8, []), ("menv", "overfull", 300, 8, []),
-                      ("env", "unusual", 300, 8, []), ("menv", "unusual", 300, 8, [])],
-            "thorough": [("env", "plain", 5000, 12, ["--levels", "1,3,10"]), ("menv", "plain", 4000, 12, ["--levels", "1,3,10"]),
+                      ("env", "unusual", 300, 8, []), ("menv", "unusual", 300, 8, []), ("env", "long", 16, 250, []), ("menv", "long", 16, 250, [])],
+            "thorough": [("env", "long", 64, 1500, []), ("menv", "long", 64, 1500, []), ("env", "plain", 5000, 12, ["--levels", "1,3,10"]), ("menv", "plain", 4000, 12, ["--levels", "1,3,10"]),
                          ("env", "toggle", 2000, 12, []), ("menv", "toggle", 2000, 12, []), ("env", "overfull", 2000, 12, []), ("menv", "overfull", 2000, 12, []),
                          ("env", "unusual", 2000, 12, []), ("menv", "unusual", 2000, 12, [])]},
     "C10": {"quick": [("env", "plain", 600, 8, []), ("menv", "plain", 600, 8, []), ("menv", "toggle", 300, 8, []),
@@ -72,8 +72,9 @@ PLANS = {
                       ("menv", "toggle", 300, 8, ["--assets", "2,3,4"])],
             "thorough": [("market", "plain", 5000, 200, ["--levels", "1,3,10"]), ("menv", "plain", 4000, 12, ["--assets", "1,2,3,4"]),
                          ("menv", "toggle", 2000, 12, ["--assets", "2,3,4"]), ("market", "reload", 1000, 100, []), ("market", "malformed", 2000, 100, [])]},
-    "C15": {"quick": [("env", "plain", 1200, 8, []), ("menv", "plain", 900, 8, []), ("env", "overfull", 300, 6, [])],
-            "thorough": [("env", "plain", 20000, 10, []), ("menv", "plain", 10000, 10, []), ("env", "overfull", 3000, 8, [])]},
+    "C15": {"quick": [("env", "plain", 1200, 8, []), ("menv", "plain", 900, 8, []), ("env", "overfull", 300, 6, []),
+                      ("env", "long", 16, 250, []), ("menv", "long", 16, 250, [])],
+            "thorough": [("env", "long", 64, 1500, []), ("menv", "long", 64, 1500, []), ("env", "plain", 20000, 10, []), ("menv", "plain", 10000, 10, []), ("env", "overfull", 3000, 8, [])]},
 }
 
 
@@ -396,7 +397,12 @@ def decide(prop, tier, seed, spec, verdict, workdir, pr, finds, stats, totals, s
         if kf:
             verdict.known_finding(kf)
             continue
-        verdict.violation({"kind": "impl-violates-property", "obligation": f"A({prop}): {','.join(sorted(f.fields))}",
+        extra = {}
+        if f.profile == "long":
+            # long runs are judged inside the harness (no operation stream is printed): reproduce with the generator command
+            k, sd, hi = f.hkind, f.hid.split("-")[1], f.hid.split("-")[2]
+            extra = {"how_to_reproduce": f".build/harness/debug/drive env-gen --kind {k} --profile long --seed {sd} --hists {int(hi) + 1} --rounds <as in the plan> | tail -1"}
+        verdict.violation({"kind": "impl-violates-property", "obligation": f"A({prop}): {','.join(sorted(f.fields))}", **extra,
                            "stream": [l for l in small if l[:2] in ("H ", "O ")], "shrunk": ok,
                            "first_bad_op": f.op, "original_history": f.hid,
                            "replay_cmd": f"bin/check {prop} --replay <this file>"}, what)
